@@ -832,6 +832,10 @@ func runC12(c *core.Ctx) core.Meta {
 	// ---------------- R12.14 a command's task is closed before its waiters are released ----------------
 	checkTraceAfterRelease(c, pd, "R12.14")
 
+	// ---------------- R12.19 progress of every context counts ----------------
+	st19 := c.Rule("R12.19", "the driver keeps ticking while any context made progress: where a function with a bool result collects its answer in a loop (processNewCommand over the contexts, the queue loops below it), the value carried around the loop is derived from itself on the back edge (p = step() || p), so that an earlier iteration's progress is not forgotten. With p = step(), a command started from an older context while the newer ones are idle is reported as no progress: the driver sleeps with the command's requests unsent and the wait on its queue never returns", 2)
+	checkProgressAccumulated(c, st19, "R12.19", pd, "A command that an older context started is not continued: the engine runs dry and DrainCommandQueue never returns")
+
 	// ---------------- R12.18 the running flag falls only with the command ----------------
 	st18 := c.Rule("R12.18", "a queue stops counting as running only when its head command is retired: after every store CommandQueue.IsRunning = false the same pass reaches CommandQueue.Dequeue (directly or through a helper of the package) on every path to the function's return. A flag cleared while the command stays at the head (a kernel on a unified device still waiting for the other GPUs' responses) lets processNewCommand start the same command again on the next tick: the kernel runs repeatedly, the command is never dequeued and the drain never returns", 4)
 	pd.Instrs(func(fn *ssa.Function, in ssa.Instruction) {
